@@ -21,7 +21,7 @@ from hsim.worlds.http import FlowRecord, HttpWorld
 
 PROPERTY = "C16"
 CHUNK = {"quick": 10, "thorough": 24}
-PROBES = ["two_sessions_in_one_simulator", "older_url_granted_again", "regrant_same_name", "prefix_related_urls", "lookup_extends_several", "lookup_unknown", "temporary_second_lookup",
+PROBES = ["lookup_by_older_wrapper_url", "two_sessions_in_one_simulator", "older_url_granted_again", "regrant_same_name", "prefix_related_urls", "lookup_extends_several", "lookup_unknown", "temporary_second_lookup",
           "temporary_via_uploader", "proxy_cap_registered_twice", "proxy_cap_in_seed", "wrapper_resolved",
           "asset_cap_unattributed", "two_sessions", "seed_twice_same_region", "lookup_older_grant", "by_name_most_recent",
           "by_name_after_one_shot_consumed_among_several",
@@ -59,6 +59,7 @@ def gen_plan(rng: random.Random, tier: str) -> dict:
     }
     n = rng.randint(3, 30 if big else 16)
     # some runs keep several one-shot caps of one kind in flight at once (uploads started back to back)
+    asset_heavy = rng.random() < 0.2      # the asset service keeps moving while fetches are under way
     temp_heavy = rng.random() < 0.3
     temp_name = rng.choice(["NewFileAgentInventory", "UpdateScriptAgent"])
     hot = (0, rng.randrange(cfg["n_regions"][0]))
@@ -84,7 +85,7 @@ def gen_plan(rng: random.Random, tier: str) -> dict:
                 s, r = hot
         if x < 0.3:
             names = rng.sample(NORMAL_NAMES, rng.randint(1, 4))
-            if rng.random() < 0.6:
+            if rng.random() < (1.0 if asset_heavy else 0.6):
                 names += rng.sample(ASSET_NAMES, rng.randint(1, 2))
             req_names = list(names)
             if rng.random() < 0.5:
@@ -102,7 +103,8 @@ def gen_plan(rng: random.Random, tier: str) -> dict:
                     granted.append({"s": s, "r": r, "name": nm, "url": grant[nm]})
                     continue
                 if nm in ASSET_NAMES:
-                    grant[nm] = f"http://asset-cdn.example.invalid/{nm.lower()}"     # identical for everybody
+                    # identical for everybody; now and then the grid moves the asset service to another path
+                    grant[nm] = f"http://asset-cdn.example.invalid/{rng.choice(['', 'v2/', 'v3/'] if asset_heavy else ['', '', '', '', 'v2/'])}{nm.lower()}"
                 elif granted and rng.random() < 0.12:
                     g = rng.choice(granted)
                     grant[nm] = fresh_url(s, r, nm, prefix_of=g["url"])           # prefix-related
@@ -132,6 +134,8 @@ def gen_plan(rng: random.Random, tier: str) -> dict:
             steps.append({"at": t, "op": "byname", "s": s, "r": r, "name": rng.choice(pool)})
         else:
             y = rng.random()
+            if asset_heavy and rng.random() < 0.5:
+                y = 0.9
             if y < 0.7 and granted:
                 g = rng.choice(granted)
                 tg = [h for h in granted if h["name"] == "tmp"]
@@ -142,7 +146,8 @@ def gen_plan(rng: random.Random, tier: str) -> dict:
                 url = f"https://nowhere.example.invalid/cap/{rng.randrange(10 ** 6)}"
             else:
                 url = "wrapper"
-            steps.append({"at": t, "op": "lookup", "s": s, "r": r, "url": url, "asset": rng.choice(ASSET_NAMES)})
+            steps.append({"at": t, "op": "lookup", "s": s, "r": r, "url": url, "asset": rng.choice(ASSET_NAMES),
+                          "which": rng.randrange(8)})
     return {"property": PROPERTY, "cfg": cfg, "steps": steps}
 
 
@@ -257,9 +262,25 @@ def run_plan(plan: dict) -> RunResult:
         def op_lookup(i, st):
             url = st["url"]
             if url == "wrapper":
-                w = region_obj(st["s"], st["r"]).cap_urls.get(st["asset"] + "ProxyWrapper")
-                if w is None:
+                # any wrapper URL the viewer was ever handed for this region (a fetch started under an older grant
+                # may still be on its way), not only the newest
+                handed = []
+                for j, rec_ in sorted(rec_of_step.items()):
+                    st_j = plan["steps"][j]
+                    if st_j["op"] == "seed" and (st_j["s"], st_j["r"]) == (st["s"], st["r"]) and rec_.result is not None:
+                        try:
+                            w_ = llsd.parse_xml(rec_.result["content"]).get(st["asset"])
+                        except Exception:
+                            w_ = None
+                        if isinstance(w_, str) and w_ not in handed:
+                            handed.append(w_)
+                if not handed:
                     return
+                w = handed[st.get("which", 0) % len(handed)]
+                if len(handed) > 1:
+                    res.probe("several_wrapper_urls_handed_out")
+                    if w != handed[-1]:
+                        res.probe("lookup_by_older_wrapper_url")
                 url = w + "/?texture_id=1"
             rec_of_step[i] = world.request({"method": "GET", "url": url, "headers": {}, "st": st})
 
